@@ -852,6 +852,10 @@ func (dru *dirRepoUpload) Verify(expect digest.Digest) error {
 	dru.mu.Lock()
 	defer dru.mu.Unlock()
 	if dru.d.Digest() == expect {
+		// Close checks the digest again, content written by another request in between is not covered by this verification
+		if dru.expect == "" {
+			dru.expect = expect
+		}
 		return nil
 	}
 	if err := expect.Validate(); err != nil {
@@ -870,6 +874,9 @@ func (dru *dirRepoUpload) Verify(expect digest.Digest) error {
 			return fmt.Errorf("failed to scan the file to recompute the digest: %w", err)
 		}
 		if dru.d.Digest() == expect {
+			if dru.expect == "" {
+				dru.expect = expect
+			}
 			return nil
 		}
 	}
